@@ -482,6 +482,28 @@ impl PxWorld {
             }
             (0, BigUint::zero())
         };
+        // locked tokens that reached the user during the tx (per nonce: post - pre + what he paid at that nonce):
+        // for enter / merge these can only be rewards (the farm's own + what the proxy forwards from the merge call)
+        let user_lk_gain = |paid: &[(u64, BigUint)]| -> Option<(u64, BigUint)> {
+            let mut best: Option<(u64, BigUint)> = None;
+            let keys: std::collections::BTreeSet<u64> = pre.u_lk[ui].keys().chain(post.u_lk[ui].keys()).cloned().collect();
+            for k in keys {
+                let mut d = bi(&bag_get(&post.u_lk[ui], k)) - bi(&bag_get(&pre.u_lk[ui], k));
+                for (pk, pa) in paid.iter() {
+                    if *pk == k {
+                        d += bi(pa);
+                    }
+                }
+                if d > BigInt::zero() {
+                    let a = d.to_biguint().unwrap();
+                    match &best {
+                        Some((_, b)) if b >= &a => {}
+                        _ => best = Some((k, a)),
+                    }
+                }
+            }
+            best
+        };
         // expected change of the proxy's locked holdings per nonce, used to spot stray tokens
         let mut expect: BTreeMap<u64, BigInt> = BTreeMap::new();
         let exp_add = |m: &mut BTreeMap<u64, BigInt>, k: u64, v: BigInt| {
@@ -567,6 +589,15 @@ impl PxWorld {
                 let merge = parse_pays(w[4]);
                 outs.f = nz(rets[0].1, rets[0].2.clone());
                 outs.r = reward_of(&rets[1]);
+                if !merge.is_empty() {
+                    // with a merge the proxy may forward further rewards paid by the farm's merge call
+                    let paid: Vec<(u64, BigUint)> = if w[0] == "enterL" { vec![(n, x.clone())] } else { vec![] };
+                    let seen = user_lk_gain(&paid);
+                    if seen.as_ref().map(|p| p.1.clone()).unwrap_or_default() > outs.r.as_ref().map(|p| p.1.clone()).unwrap_or_default() {
+                        tr.count("branch.merge_rewards_forwarded");
+                        outs.r = seen;
+                    }
+                }
                 let rew = outs.r.clone();
                 let (pre_b, post_b) = if w[2] == "L" { (&pre.p_fl, &post.p_fl) } else { (&pre.p_fw, &post.p_fw) };
                 let (fnn, fam) = new_farm_tok(pre_b, post_b);
@@ -743,7 +774,16 @@ impl PxWorld {
                     let wa = self.wattr.get(&fa_new.pn).cloned().unwrap();
                     (wa.k, wa.locked)
                 };
-                resp.push(format!("mfarm={}:{} mk={}", fa_new.fnonce, fa_new.fa, self.lk_at(mk, &mamt)));
+                // boosted rewards the farm paid during the merge and the proxy forwarded to the caller
+                outs.r = user_lk_gain(&[]);
+                let rs = outs.r.as_ref().map(|(k, a)| self.lk_at(*k, a)).unwrap_or("-".into());
+                if let Some((k, a)) = &outs.r {
+                    contrib += self.en(*k, a);
+                    t_contrib += bi(a);
+                    self.ext += bi(a);
+                    tr.count("branch.merge_rewards_forwarded");
+                }
+                resp.push(format!("mfarm={}:{} mk={} rew={}", fa_new.fnonce, fa_new.fa, self.lk_at(mk, &mamt), rs));
                 for (fnon, fx) in parse_pays(w[3]).iter() {
                     let at = self.fattr.get(fnon).cloned().unwrap();
                     let p = Self::part(&at.pa, &at.fa, fx).unwrap_or_default();
